@@ -528,6 +528,12 @@ func (x *Exec) reflectStub(fn *ssa.Function, args []Val) (Val, bool) {
 			return r.val(), true
 		}
 		return IfaceV{T: r.T, V: copyVal(r.val())}, true
+	case "(reflect.Value).UnsafeAddr":
+		r := args[0].(RValV)
+		if !r.Addr || r.Loc == nil {
+			panic(panicV{msg: "reflect.Value.UnsafeAddr of unaddressable value"})
+		}
+		return cbv(64, x.addrOf(r.Loc)), true
 	case "(reflect.Value).Addr":
 		r := args[0].(RValV)
 		if !r.Addr {
